@@ -1357,7 +1357,7 @@ func (p *scionPacketProcessor) validateEgressID() disposition {
 	// egress is never the internal interface (already checked)
 	// packet coming from internal interface, must go to an external interface
 	// Note that, for now, ingress == 0 is also true for sibling interfaces. That might change.
-	if egressLink == nil || (p.ingressFromLink == 0 && egressLink.Scope() == Sibling) {
+	if egressLink == nil || (p.ingressFromLink == 0 && egressLink.Scope() != External) {
 		errCode := slayers.SCMPCodeUnknownHopFieldEgress
 		if !p.infoField.ConsDir {
 			errCode = slayers.SCMPCodeUnknownHopFieldIngress
